@@ -418,8 +418,26 @@ class State:
         self.locals, self.heap, self.pc, self.ghost, self.decisions = {}, {}, [], {}, {}
 
     def copy(self):
+        """a forked path gets its own copies of the mutable python containers (dicts / lists modelled as VDict / VTuple); aliasing between
+        two names for the same container is preserved inside the copy"""
         s = State()
-        s.locals, s.heap, s.pc, s.ghost, s.decisions = dict(self.locals), dict(self.heap), list(self.pc), dict(self.ghost), dict(self.decisions)
+        memo = {}
+
+        def clone(v):
+            if type(v).__name__ == "VDict":
+                if id(v) not in memo:
+                    memo[id(v)] = n_ = type(v)({})
+                    n_.d.update({k_: clone(x_) for k_, x_ in v.d.items()})
+                return memo[id(v)]
+            if type(v).__name__ == "VTuple":
+                if id(v) not in memo:
+                    memo[id(v)] = n_ = type(v)([])
+                    n_.items.extend(clone(x_) for x_ in v.items)
+                return memo[id(v)]
+            return v
+        s.locals = {k_: clone(v_) for k_, v_ in self.locals.items()}
+        s.heap = {k_: (clone(v_) if isinstance(k_, tuple) and k_ and k_[0] == "pyobj" else v_) for k_, v_ in self.heap.items()}
+        s.pc, s.ghost, s.decisions = list(self.pc), dict(self.ghost), dict(self.decisions)
         return s
 
     def assume(self, c):
@@ -846,6 +864,13 @@ class Engine:
             return VLib("class:" + n.id)
         if n.id in self.lib or any(k_.startswith(n.id + ".") for k_ in self.lib):
             return VLib(n.id)
+        # module-level constant (a literal table etc.) of the file the verified function lives in, then of any loaded file
+        owner = self._owner_stack[-1] if getattr(self, "_owner_stack", None) else None
+        paths = ([self.repo.classes[owner][0]] if owner in self.repo.classes else []) + list(self.repo.files)
+        for path in paths:
+            for stmt in self.repo.files[path][1].body:
+                if isinstance(stmt, ast.Assign) and any(isinstance(t, ast.Name) and t.id == n.id for t in stmt.targets) and isinstance(stmt.value, (ast.Dict, ast.Constant, ast.Tuple, ast.List, ast.Set)):
+                    return self.ev(stmt.value, st)
         raise Unsupported("unbound name " + n.id)
 
     def ev_Lambda(self, n, st):
@@ -940,6 +965,21 @@ class Engine:
             out.append(self.ev(n.elt, st))
         st.locals = saved
         return VTuple(out)
+
+    def ev_DictComp(self, n, st):
+        if len(n.generators) != 1 or n.generators[0].ifs:
+            raise Unsupported("dict comprehension " + ast.unparse(n))
+        g = n.generators[0]
+        it = self.ev(g.iter, st)
+        if not isinstance(it, VTuple):
+            raise Unsupported("dict comprehension over a non-concrete iterable " + ast.unparse(n))
+        out = {}
+        saved = dict(st.locals)
+        for item in it.items:
+            self.store(g.target, item, st)
+            out[self.key_of(self.ev(n.key, st))] = self.ev(n.value, st)
+        st.locals = saved
+        return VDict(out)
 
     def ev_List(self, n, st):
         if n.elts:
@@ -1102,7 +1142,15 @@ class Engine:
         is_and = isinstance(n.op, ast.And)
         acc = []
         for idx, v in enumerate(n.values):
-            t = z3.simplify(self.truth(self.ev(v, st)))
+            val_ = self.ev(v, st)
+            t = z3.simplify(self.truth(val_))
+            if not isinstance(val_, VBool) and not acc and (z3.is_true(t) or z3.is_false(t)):
+                # python's and / or return an OPERAND: with all earlier operands decided, a decided non-boolean operand is the result (or is skipped)
+                if (is_and and z3.is_false(t)) or (not is_and and z3.is_true(t)) or idx == len(n.values) - 1:
+                    return val_
+                continue
+            if not isinstance(val_, VBool) and not acc and idx == len(n.values) - 1:
+                return val_
             if (is_and and z3.is_false(t)) or (not is_and and z3.is_true(t)):
                 return VBool(z3.BoolVal(not is_and))
             if (is_and and z3.is_true(t)) or (not is_and and z3.is_false(t)):
@@ -1138,6 +1186,8 @@ class Engine:
         return VSeq(FnArr(lambda k_: z3.If(k_ < a.len, a.arr[k_], b.arr[k_ - a.len])), a.len + b.len, pylist=True)
 
     def binop(self, op, a, b, n=None):
+        if isinstance(a, VStr) and isinstance(b, VStr) and isinstance(op, ast.Add) and not (a.s.startswith("<") or b.s.startswith("<")):
+            return VStr(a.s + b.s)               # concatenation of two concrete strings
         if isinstance(a, VStr) and isinstance(op, (ast.Mod, ast.Add)):
             return VStr("<formatted>")
         if isinstance(op, ast.Mod) and getattr(self, "mod_model", None) is not None:
@@ -1717,6 +1767,32 @@ class Engine:
     def st_Import(self, n, st):
         return [(st, "next", None)]
 
+    def st_With(self, n, st):
+        """`with cm as x: body` for external context managers (files, handles, warnings filters): __enter__ / __exit__ are recorded calls on the
+        external object, x is bound to what __enter__ returns (the object itself unless ext_results says otherwise); exceptions inside the body
+        propagate after __exit__ (no suppression modelled)"""
+        for item in n.items:
+            cm = self.ev(item.context_expr, st)
+            if isinstance(cm, VExternal):
+                st.ghost = dict(st.ghost)
+                st.ghost["ext_calls"] = st.ghost.get("ext_calls", ()) + ((cm.name, "__enter__", (), {}),)
+                entered = self.ext_results["__enter__"](self, st, [cm], {}) if "__enter__" in getattr(self, "ext_results", {}) else cm
+            elif isinstance(cm, VOpaque):
+                entered = cm
+            else:
+                raise Unsupported("with over " + type(cm).__name__)
+            if item.optional_vars is not None:
+                self.store(item.optional_vars, entered, st)
+        outs = []
+        for s_, flow, val in self.run(n.body, st):
+            for item in n.items:
+                cm = self.ev(item.context_expr, s_) if not isinstance(item.context_expr, ast.Call) else None
+                if isinstance(cm, VExternal):
+                    s_.ghost = dict(s_.ghost)
+                    s_.ghost["ext_calls"] = s_.ghost.get("ext_calls", ()) + ((cm.name, "__exit__", (), {}),)
+            outs.append((s_, flow, val))
+        return outs
+
     def st_Try(self, n, st):
         outs = []
         for s, flow, val in self.run(n.body, st):
@@ -1770,6 +1846,29 @@ class Engine:
             if f.endswith(".append") and isinstance(n.value.func.value, ast.Name) and isinstance(st.locals.get(n.value.func.value.id), VSeq):
                 seq = st.locals[n.value.func.value.id]
                 v = self.ev(n.value.args[0], st)
+                if not isinstance(v, VNum) and z3.is_int_value(z3.simplify(seq.len)) and z3.simplify(seq.len).as_long() == 0:
+                    # an empty list literal that turns out to hold non-numbers: a python list; every alias of it (e.g. a dict entry created by setdefault) follows
+                    new_ = VTuple([v])
+
+                    def swap(val):
+                        if isinstance(val, VDict):
+                            for k_, x_ in list(val.d.items()):
+                                if x_ is seq:
+                                    val.d[k_] = new_
+                                else:
+                                    swap(x_)
+                        elif isinstance(val, VTuple):
+                            for q_, x_ in enumerate(val.items):
+                                if x_ is seq:
+                                    val.items[q_] = new_
+                                else:
+                                    swap(x_)
+                    for k_, x_ in list(st.locals.items()):
+                        if x_ is seq:
+                            st.locals[k_] = new_
+                        else:
+                            swap(x_)
+                    return [(st, "next", None)]
                 st.locals[n.value.func.value.id] = VSeq(z3.Store(materialise(seq.arr), seq.len, v.real()), seq.len + 1, pylist=True)
                 return [(st, "next", None)]
             if f.endswith(".append") and isinstance(n.value.func.value, ast.Attribute):
@@ -1836,6 +1935,9 @@ class Engine:
             ex_.rec["calls"].append(("set:" + t.attr, [v], {}))
             st.ghost = dict(st.ghost)
             st.ghost["ext_calls"] = st.ghost.get("ext_calls", ()) + ((ex_.name, "set:" + t.attr, (v,), {}),)
+        elif isinstance(t, ast.Attribute) and isinstance(self.ev(t.value, st), VOpaque):
+            st.ghost = dict(st.ghost)          # attribute set on an opaque value (e.g. a function object): recorded, no other effect
+            st.ghost["opaque_sets"] = st.ghost.get("opaque_sets", ()) + ((self.ev(t.value, st).tag, t.attr, v),)
         elif isinstance(t, ast.Attribute):
             base = self.ev(t.value, st)
             if self.ftype(base.cls, t.attr) is not None:
